@@ -70,7 +70,12 @@ def gen():
     if not m:
         raise F.FactError("replace_slow: `let need_lowercase = ..` not found")
     out.append("Definition lowercase_guard_is_uppercase : bool := %s.\n" % b(guard_kind(m.group(1), DEF, "need_lowercase of replace_slow")))
-    m = re.search(r"let\s+need_nkfc\s*=\s*!self\.should_ignore\(ch\)\s*&&\s*match\s+is_nfkc_quick\(std::iter::once\(ch\)\)\s*\{\s*IsNormalized::Yes\s*=>\s*false\s*,\s*_\s*=>\s*true\s*,?\s*\}", slow)
+    # `quick-check != Yes` spelled as a two-arm match, as !matches!(..) or as a comparison
+    qc = r"is_nfkc_quick\(std::iter::once\(ch\)\)"
+    not_yes = (r"(?:match\s+%s\s*\{\s*IsNormalized::Yes\s*=>\s*false\s*,\s*_\s*=>\s*true\s*,?\s*\}"
+               r"|!\s*matches!\(\s*%s\s*,\s*IsNormalized::Yes\s*\)"
+               r"|%s\s*!=\s*IsNormalized::Yes|IsNormalized::Yes\s*!=\s*%s)" % (qc, qc, qc, qc))
+    m = re.search(r"let\s+need_nkfc\s*=\s*!self\.should_ignore\(ch\)\s*&&\s*%s\s*;" % not_yes, slow)
     if not m:
         raise F.FactError("replace_slow: need_nkfc is no longer `!should_ignore(ch) && quick-check != Yes`")
     # the four arms of the (need_lowercase, need_nkfc) match
@@ -90,7 +95,13 @@ def gen():
         elif ("letchars=%s;" % w.replace(" ", "")) not in bb:
             raise F.FactError("replace_slow: arm %s no longer computes `%s`" % (k, w))
     hs = F.fn_body(t, "handle_normalization_slow", DEF)
-    if not re.search(r"if\s+ch2\s*==\s*ch\s*\{\s*return;?\s*\}", hs) or not re.search(r"replace_char_iter\(\s*start\.\.start\s*\+\s*len\s*,\s*ch2\s*,\s*data\s*\)", hs):
+    # nothing when the iterator is empty or starts with `ch`, else replace_char_iter(start..start + len, first, data):
+    # either `match data.next() { Some(x) => { if x == ch { return; } R } None => return }` (read as before) or the whole
+    # body is `if let Some(x) = data.next() { if x != ch { R } }`
+    hw = re.sub(r"\s+", "", hs)
+    form_a = re.search(r"if\s+ch2\s*==\s*ch\s*\{\s*return;?\s*\}", hs) and re.search(r"replace_char_iter\(\s*start\.\.start\s*\+\s*len\s*,\s*ch2\s*,\s*data\s*\)", hs)
+    form_b = re.fullmatch(r"ifletSome\((\w+)\)=data\.next\(\)\{if(?:\1!=ch|ch!=\1)\{replacer\.replace_char_iter\(start\.\.start\+len,\1,data\);?\}\}", hw)
+    if not form_a and not form_b:
         raise F.FactError("handle_normalization_slow: shape not recognised")
 
     # --- path choice
